@@ -1704,19 +1704,9 @@ fn forward_device_data(
         return ConsumeStatus::FilterCaughtup;
     }
 
+    // A topic alias stands for one topic name. It is looked up (or created) per
+    // forwarded topic, not per filter: a wildcard filter forwards many topics
     let broker_topic_aliases = &mut connection.broker_topic_aliases;
-    let mut topic_alias = broker_topic_aliases
-        .as_ref()
-        .and_then(|aliases| aliases.get_alias(&request.filter));
-
-    let topic_alias_already_exists = topic_alias.is_some();
-
-    // if topic alias doesn't exists, try creating new one!
-    if !topic_alias_already_exists {
-        topic_alias = broker_topic_aliases
-            .as_mut()
-            .and_then(|broker_aliases| broker_aliases.set_new_alias(&request.filter))
-    }
 
     let subscription_id = connection.subscription_ids.get(&request.filter);
 
@@ -1726,16 +1716,24 @@ fn forward_device_data(
         .map(|((mut publish, mut properties), offset)| {
             publish.qos = protocol::qos(qos).unwrap();
 
-            // if there is some topic alias to use, set it in publish properties
-            if topic_alias.is_some() {
-                let mut props = properties.unwrap_or_default();
-                props.topic_alias = topic_alias;
-                properties = Some(props);
-            }
+            if let Some(aliases) = broker_topic_aliases.as_mut() {
+                if let Ok(topic) = std::str::from_utf8(&publish.topic) {
+                    let existing = aliases.get_alias(topic);
+                    // if topic alias doesn't exists, try creating new one!
+                    let topic_alias = existing.or_else(|| aliases.set_new_alias(topic));
 
-            // We want to clear topic if we are using an existing alias
-            if topic_alias_already_exists {
-                publish.topic.clear()
+                    // if there is some topic alias to use, set it in publish properties
+                    if topic_alias.is_some() {
+                        let mut props = properties.unwrap_or_default();
+                        props.topic_alias = topic_alias;
+                        properties = Some(props);
+                    }
+
+                    // We want to clear topic if we are using an existing alias
+                    if existing.is_some() {
+                        publish.topic.clear()
+                    }
+                }
             }
 
             if let Some(&subscription_id) = subscription_id {
